@@ -37,6 +37,8 @@ FLOORS = {'UNIFORM': 30, 'FRAME': 3, 'CONCAT': 8, 'REPEAT': 3, 'ADJUST': 4}
 
 
 def run(ctx):
+  reversed_rejected(ctx, 'ADJUST/reversed-rejected')
+  no_zero_shift(ctx, 'CONCAT/no-zero-shift')
   tp = cov.time_paths(ctx.S)
   ctx.require(len(tp) >= 10, 'schema lists only %d time-bearing paths' % len(tp))
   fields_named(ctx, tp)      # location-independent rules first
@@ -90,6 +92,90 @@ def interp_knots(ctx):
                                                            'the end points 0.0 / total_time are added after de-duplication, and the beat filter admits beats exactly at an end point, '
                                                            'so a beat at 0.0 or at total_time is a repeated knot' if 'sorted' in st else 'np.interp needs increasing x-coordinates'),
              construct='x-coordinates of the beat interpolation', definite=True)
+
+
+def reversed_rejected(ctx, rule):
+  """Location-independent scenario: adjust_notesequence_times "rejects maps that reverse a note" - whatever minimum_duration is.
+  The raise of InvalidTimeAdjustmentError for a reversed note must be reachable when the adjusted end lies before the adjusted start
+  and a minimum duration is given: its path conditions (early exits and `continue`s included) are evaluated three-valued with
+  end_time = start_time - 1 and minimum_duration = 1."""
+  from sa import scenario
+  fi = ctx.func(SL + ':adjust_notesequence_times')
+  fn = fi.node
+  cons = 'a reversed note is rejected also when minimum_duration is given'
+  loop = next((n for n in ast.walk(fn) if isinstance(n, ast.For) and norm_text(n.iter).endswith('.notes')), None)
+  raises = []
+  if loop is not None:
+    for r in U.walk_stmts(loop):
+      if isinstance(r, ast.Raise) and r.exc is not None and 'InvalidTimeAdjustmentError' in norm_text(r.exc):
+        conds = U.path_conditions(fn, r, stop_at=loop)
+        names = set(x.id for t, _p in conds for x in ast.walk(t) if isinstance(x, ast.Name))
+        ends = [n_ for n_ in names if 'end' in n_]
+        starts = [n_ for n_ in names if 'start' in n_]
+        own = [t for t, p_ in U.enclosing_tests(fn, r, stop_at=loop) if p_][-1:]      # the test that directly guards this raise
+        if len(ends) == 1 and len(starts) == 1 and any(isinstance(c, ast.Compare) and {ends[0], starts[0]} <= set(x.id for x in ast.walk(c) if isinstance(x, ast.Name)) for t in own for c in ast.walk(t)):
+          raises.append((r, conds, ends[0], starts[0]))
+  if not raises:
+    why = 'cannot classify: no rejection that compares the adjusted end with the adjusted start was found in the note loop'
+    ctx.ob(rule, fi, fn, False, why, construct=cons, unknown=why)
+    return
+  verdicts = []
+  for r, conds, e_, s_ in raises:
+    sub = scenario.subst_of([(s_, '10'), (e_, '9'), ('minimum_duration', '1')])      # a reversed note well inside positive time
+    rel = [(t, p) for t, p in conds if any(isinstance(x, ast.Name) and x.id in (e_, s_, 'minimum_duration') for x in ast.walk(t))]
+    verdicts.append((scenario.tv_all(rel, sub), r, rel))
+  if any(v is True for v, _r, _c in verdicts):
+    ctx.ob(rule, fi, raises[0][0], True, 'a reversed note reaches the rejection with minimum_duration set', construct=cons)
+  elif any(v is None for v, _r, _c in verdicts):
+    why = 'cannot classify: the conditions of the rejection cannot be evaluated for end_time = start_time - 1, minimum_duration = 1'
+    ctx.ob(rule, fi, raises[0][0], False, why, construct=cons, unknown=why)
+  else:
+    _v, r, rel = verdicts[0]
+    ctx.ob(rule, fi, r, False, 'with a minimum duration given, a note whose adjusted end lies before its adjusted start does not reach %s (its conditions: %s): the reversed note is padded to the '
+           'minimum duration and returned instead of being rejected' % (norm_text(r)[:50], ' and '.join(('' if p else 'not ') + '(' + norm_text(t) + ')' for t, p in rel)[:200]),
+           construct=cons, definite=True)
+
+
+def no_zero_shift(ctx, rule):
+  """Location-independent scenario: shift_sequence_times rejects a shift that is not positive, so concatenate_sequences may call it
+  only when the running offset is known to be positive.  The path conditions of every call are evaluated with the offset
+  argument equal to 0: the call must be unreachable."""
+  from sa import scenario
+  callee = ctx.func(SL + ':shift_sequence_times')
+  p_shift = callee.params()[1]
+  rejects = False
+  for r in ast.walk(callee.node):
+    if isinstance(r, ast.Raise):
+      for t, p in U.path_conditions(callee.node, r):
+        if scenario.tv_all([(t, p)], scenario.subst_of([(p_shift, '0')])) is True:
+          rejects = True
+  fi = ctx.func(SL + ':concatenate_sequences')
+  fn = fi.node
+  cons = 'concatenate_sequences never asks for a shift by 0'
+  if not rejects:
+    ctx.ob(rule, fi, fn, True, 'shift_sequence_times accepts a zero shift', construct=cons)
+    return
+  calls = [c for c in U.calls_in(fn) if dotted(c.func) == 'shift_sequence_times' and len(c.args) >= 2]
+  if not calls:
+    why = 'cannot classify: concatenate_sequences does not call shift_sequence_times directly'
+    ctx.ob(rule, fi, fn, False, why, construct=cons, unknown=why)
+    return
+  for c in calls:
+    off = norm_text(c.args[1])
+    st = c
+    pm = U.parents(fn)
+    while not isinstance(st, ast.stmt):
+      st = pm[id(st)]
+    conds = [(t, p) for t, p in U.path_conditions(fn, st) if off in norm_text(t)]
+    r = scenario.tv_all(conds, scenario.subst_of([(off, '0')])) if conds else True
+    if r is False:
+      ctx.ob(rule, fi, c, True, 'the call is unreachable with %s == 0' % off, construct=cons)
+    elif r is True:
+      ctx.ob(rule, fi, c, False, '%s is reached with %s == 0 (no condition on its path excludes it): the offset is still 0 after a leading piece of zero duration, and shift_sequence_times raises '
+             'ValueError for a shift that is not positive - the concatenation fails instead of placing the next piece unshifted' % (norm_text(c)[:60], off), construct=cons, definite=True)
+    else:
+      why = 'cannot classify: the conditions on %s before %s cannot be evaluated at 0' % (off, norm_text(c)[:40])
+      ctx.ob(rule, fi, c, False, why, construct=cons, unknown=why)
 
 
 def _twin_of_param(fn, src, dst, param):
